@@ -1,5 +1,6 @@
 (* C12 — multi-line string literals keep their value. Statements only. *)
 From PasfmtVerif Require Import Model.MLString Model.MLValue Proofs.MLStringProofs.
+From PasfmtVerif Require Import Model.WrapApply Proofs.WrapApplyProofs.
 
 (* rs_ok: newline is LF or CRLF, indentation strings are made of spaces/tabs (always true for
    settings built from a configuration).  ends_quote: the literal ends with a quote (lexer). *)
@@ -52,3 +53,23 @@ Theorem C12_nonblank_preserved :
   forall rs ind cont c c', rs_blank rs -> lines_complete c ->
   rewrite_ml_token rs ind cont c = Some c' -> strip c' = strip c.
 Proof. exact token_strip_eq. Qed.
+
+(* ---- the wrapper changes token text only through rewrite_ml_token, on non-ignored multi-line strings ---- *)
+Theorem C12_wrapper_only_rewrites_via_rewrite_ml_token :
+  forall (rs : rsettings) (fm : bool) (visits : list nat)
+    (plan1 plan2 : list (nat * decision)) (l : list ftoken),
+  pointwise (fun p q : ftoken => ml_rewrites rs (t_content (fst p)) (t_content (fst q))) l
+    (olf_effect rs fm visits plan1 plan2 l).
+Proof. exact olf_effect_ml_text. Qed.
+
+Theorem C12_wrapper_ignored_text :
+  forall (rs : rsettings) (fm : bool) (visits : list nat)
+    (plan1 plan2 : list (nat * decision)) (l : list (token * fmt)) 
+    (j : nat) (p : token * fmt),
+  nth_error l j = Some p ->
+  f_ignored (snd p) = true ->
+  exists q : ftoken,
+    nth_error (olf_effect rs fm visits plan1 plan2 l) j = Some q /\
+    fst q = fst p /\ f_ignored (snd q) = true.
+Proof. exact olf_effect_ignored_text. Qed.
+
